@@ -279,7 +279,7 @@ impl Check for C08 {
         // back to the parent - judged by C19's block scanner
         use crate::checks::c19::{NestDef, W};
         // a command inside an optional member of a group that is one branch of an alternative
-        out.push(json!({"odd": 1}));
+        out.push(json!({"odd": 4}));
         for cmd_wrap in [W::Bare, W::Opt, W::Many] {
             for two_values in [false, true] {
                 for inner_switch in [false, true] {
